@@ -246,7 +246,7 @@ std::vector<Op> gen_script(const std::string& prop, const WorldSpec& w, uint64_t
             c.kind = OP_SVDCOMPUTE;
             double x = r.real01();
             c.maxit = x < 0.15 ? 1 : (x < 0.3 ? 2 + (long) r.below(5) : 1000);
-            c.tol = r.chance(0.3) ? std::max(1e-10, tol_floor(w.scalar)) : std::pow(10.0, r.real(w.scalar == S_FLOAT ? -6 : -12, -2));
+            c.tol = r.chance(0.3) ? std::max(1e-10, tol_floor(w.scalar)) : std::pow(10.0, r.real(w.scalar == S_FLOAT ? -6 : -14.5, -2));
             s.push_back(c);
             if (r.chance(0.6))
             {
